@@ -285,7 +285,33 @@ pub fn run_zerv(ctx: &Ctx, rd: &RunDir, call: &ZervCall, stats: &mut Stats) -> O
 
 /// Replace the run-specific scratch root by `$ROOT` (before anything is logged or hashed).
 pub fn norm(ctx: &Ctx, s: &str) -> String {
-    s.replace(&*ctx.root.to_string_lossy(), "$ROOT")
+    norm_thread_ids(&s.replace(&*ctx.root.to_string_lossy(), "$ROOT"))
+}
+
+/// Rust's panic and stack-overflow messages name the thread with its OS id – `thread 'main' (12130)
+/// panicked at …` – which is process identity, not behaviour: replaced by `(N)` in logs and digests.
+pub fn norm_thread_ids(s: &str) -> String {
+    let mut out = String::with_capacity(s.len());
+    let mut rest = s;
+    while let Some(i) = rest.find("thread '") {
+        let (head, tail) = rest.split_at(i);
+        out.push_str(head);
+        // thread '<name>' (<digits>)
+        if let Some(q) = tail[8..].find("' (") {
+            let after = &tail[8 + q + 3..];
+            let digits = after.bytes().take_while(|b| b.is_ascii_digit()).count();
+            if digits > 0 && after[digits..].starts_with(')') {
+                out.push_str(&tail[..8 + q + 3]);
+                out.push('N');
+                rest = &after[digits..];
+                continue;
+            }
+        }
+        out.push_str(&tail[..8]);
+        rest = &tail[8..];
+    }
+    out.push_str(rest);
+    out
 }
 
 pub fn short(s: &str, n: usize) -> String {
